@@ -668,6 +668,16 @@ def run_batch(spec):
                 v.set_state(states[-1])
                 judge_snapshot(b, v, rec, {"mode": "snapshot", "state": sorted(states[-1].items()), "recursive": rec})
                 run_root_gone(b, states[-1], rec, {"mode": "rootgone"})
+                # two devices below one root: the same inode NUMBER on both names two different directories, each with content
+                st2 = c09.random_state(r, pool, maxn=8, devs=(0, 1))
+                dirs0 = [(p_, e_) for p_, e_ in st2.items() if e_.isdir and e_.dev == 0]
+                dirs1 = [(p_, e_) for p_, e_ in st2.items() if e_.isdir and e_.dev == 1 and not any(p_ == q_ or p_.startswith(q_ + "/") or q_.startswith(p_ + "/") for q_, _ in dirs0[:1])]
+                if dirs0 and dirs1 and not any(e_.ino == dirs0[0][1].ino and e_.dev == 1 for e_ in st2.values()):
+                    st2[dirs1[0][0]] = dirs1[0][1]._replace(ino=dirs0[0][1].ino)
+                    b.count("snapshots_with_same_ino_on_two_devices")
+                v2 = VFS(as_bytes=byt)
+                v2.set_state(st2)
+                judge_snapshot(b, v2, True, {"mode": "snapshot", "state": sorted(st2.items()), "recursive": True})
             if n == 0:
                 b.sample({"states": [{k: tuple(e) for k, e in s.items()} for s in states[:4]], "recursive": rec, "bytes": byt})
     elif kind == "faults":
